@@ -300,10 +300,11 @@ func init() {
 		ID: "C02",
 		Explanation: "Decides structural necessary conditions of 'listener events reproduce the derivation' on every case of every committed generated applyRule: STACKIDX: each stack reference stack[len(stack)-K] / stack[len(stack)-A:len(stack)-B] of case i lies inside the tmRuleLen[i] symbols of rule i (inside the prefix for mid-rule nonterminals), ranges are non-empty, fixTrailingWS gets exactly the whole right-hand side. " +
 			"GUARD(markerfree) and LOOPSHAPE(marker-transparent): state markers never count as symbols and never stop a scan of the right-hand side (HasTrailingNulls decides whether trailing whitespace is trimmed). VARIANT(trim-trailing-empty): all trailing empty symbols are trimmed from a node's range. SIBLING(list-recursion): every recursive list rule built by Expand is left-recursive unless the list is flagged right-recursive (elements are reported in source order). TYPESTATE(lookahead): the offset given to an empty node (p.next.offset) is read only while the lookahead is fetched, never after it was consumed by a shift. FIELDROLE(input): each branch on a flag of syntax.Input reads the flag its audited role names (node types are collected from non-Synthetic inputs; NoEoi is a different bool on the same record). " +
-			"Not decided: that the range is the right sub-range, post-order, node types; list expansion order. SOURCE(identity): every generated lexer's Init keeps the caller's string in l.source unmodified (reported ranges are offsets into the caller's text; a byte-order mark is skipped by moving the offset). LOOPSHAPE(marker-transparent) also rejects a marker test on one fixed position of a right-hand side outside a loop.",
-		Rules: []string{"STACKIDX", "GUARD(markerfree)", "LOOPSHAPE(marker-transparent)", "VARIANT", "SIBLING(list-recursion)", "TYPESTATE(lookahead)", "FIELDROLE(input)", "SOURCE(identity)"},
+			"Not decided: that the range is the right sub-range, post-order, node types; list expansion order. SOURCE(identity): every generated lexer's Init keeps the caller's string in l.source unmodified (reported ranges are offsets into the caller's text; a byte-order mark is skipped by moving the offset). LOOPSHAPE(marker-transparent) also rejects a marker test on one fixed position of a right-hand side outside a loop. TMPL(switch-guard): every grammar predicate that can make a case arm of applyRule appear (HasTrailingNulls for the fixTrailingWS arm) also feeds the guard under which `switch rule {` is generated.",
+		Rules: []string{"STACKIDX", "GUARD(markerfree)", "LOOPSHAPE(marker-transparent)", "VARIANT", "SIBLING(list-recursion)", "TYPESTATE(lookahead)", "FIELDROLE(input)", "SOURCE(identity)", "TMPL(switch-guard)"},
 		Run: func(c *Ctx) {
 			rulePEEK(c)
+			ruleSWITCHGUARD(c)
 			ruleSOURCEID(c)
 			ruleFIELDROLE(c)
 			ruleSTACKIDX(c)
@@ -344,10 +345,11 @@ func init() {
 	register(&Property{
 		ID: "C20",
 		Explanation: "Decides structural necessary conditions of 'parse events form a well-nested tree': VARIANT(flush-after-extend): in recoverFromError the error node is flushed only after its range was extended over pending invalid tokens (otherwise tokens inside the node are reported after it). VARIANT(trim-trailing-empty): every parse loop that trims trailing empty symbols does so in a loop (all of them), so a node never runs into following whitespace/comments that are still pending. " +
-			"STACKIDX: reported ranges are non-empty sub-ranges of the rule. Not decided: the tree builder, nesting under recovery in general. INITCOV: every field of Lexer/Parser/TokenStream that another method modifies is assigned on every path by Init (or by the first block of parse()), so no run state of an earlier input (pending tokens of a cancelled parse) reaches the next input's event stream; four audited exemptions. INITCOV: every field of Lexer/Parser/TokenStream that another method modifies is assigned on every path by Init (or by the first block of parse()), so no run state of an earlier input (pending tokens of a cancelled parse) reaches the next input's event stream; audited exemptions are listed in the rule. GUARD(root-adopts-all): builder.build() of each generated ast package either fails unless one node is left on the stack or adds the file node with an end offset beyond the input, so that every reported node (an empty node at the very end included) is in the tree. GUARD(sibling-boundary) as in C21.",
-		Rules: []string{"INITCOV", "VARIANT", "STACKIDX", "GUARD(root-adopts-all)", "GUARD(sibling-boundary)"},
+			"STACKIDX: reported ranges are non-empty sub-ranges of the rule. Not decided: the tree builder, nesting under recovery in general. INITCOV: every field of Lexer/Parser/TokenStream that another method modifies is assigned on every path by Init (or by the first block of parse()), so no run state of an earlier input (pending tokens of a cancelled parse) reaches the next input's event stream; four audited exemptions. INITCOV: every field of Lexer/Parser/TokenStream that another method modifies is assigned on every path by Init (or by the first block of parse()), so no run state of an earlier input (pending tokens of a cancelled parse) reaches the next input's event stream; audited exemptions are listed in the rule. GUARD(root-adopts-all): builder.build() of each generated ast package either fails unless one node is left on the stack or adds the file node with an end offset beyond the input, so that every reported node (an empty node at the very end included) is in the tree. GUARD(sibling-boundary) as in C21. TMPL(switch-guard) as in C02 (whitespace trimming is generated for every grammar that needs it).",
+		Rules: []string{"INITCOV", "VARIANT", "STACKIDX", "GUARD(root-adopts-all)", "GUARD(sibling-boundary)", "TMPL(switch-guard)"},
 		Run: func(c *Ctx) {
 			ruleINITCOV(c, "TokenStream", "Lexer", "Parser")
+			ruleSWITCHGUARD(c)
 			ruleROOTADOPT(c)
 			ruleSIBLINGBOUNDARY(c)
 			ruleRECOVERY(c)
